@@ -241,11 +241,13 @@ var Module = map[string]ugo.Object{
 	// Returns a new string consisting of count copies of the string s.
 	//
 	// - If count is a negative int, it returns empty string.
-	// - If (len(s) * count) overflows, it panics.
+	// - If (len(s) * count) is too large, it returns an error.
 	"Repeat": &ugo.Function{
-		Name:    "Repeat",
-		Value:   stdlib.FuncPsiRO(repeatFunc),
-		ValueEx: stdlib.FuncPsiROEx(repeatFunc),
+		Name: "Repeat",
+		Value: func(args ...ugo.Object) (ugo.Object, error) {
+			return repeatFuncEx(ugo.NewCall(nil, args))
+		},
+		ValueEx: repeatFuncEx,
 	},
 	// ugo:doc
 	// Replace(s string, old string, new string[, n int]) -> string
@@ -569,10 +571,13 @@ func pad(c ugo.Call, left bool) (ugo.Object, error) {
 		return ugo.Undefined,
 			ugo.NewArgumentTypeError("2nd", "int", c.Get(1).TypeName())
 	}
-	diff := padLen - len(s)
-	if diff <= 0 {
+	if padLen <= len(s) {
 		return ugo.String(s), nil
 	}
+	if padLen > maxRepeatSize {
+		return ugo.Undefined, ugo.ErrType.NewError("pad length is too large")
+	}
+	diff := padLen - len(s)
 	padWith := " "
 	if size > 2 {
 		if padWith = c.Get(2).String(); len(padWith) == 0 {
@@ -595,12 +600,30 @@ func pad(c ugo.Call, left bool) (ugo.Object, error) {
 	return ugo.String(sb.String()), nil
 }
 
-func repeatFunc(s string, count int) ugo.Object {
+// maxRepeatSize is the largest result length Repeat, PadLeft and PadRight
+// functions agree to build.
+const maxRepeatSize = 1<<31 - 1
+
+func repeatFuncEx(c ugo.Call) (ugo.Object, error) {
+	if err := c.CheckLen(2); err != nil {
+		return ugo.Undefined, err
+	}
+	s, ok := ugo.ToGoString(c.Get(0))
+	if !ok {
+		return ugo.Undefined, ugo.NewArgumentTypeError("1st", "string", c.Get(0).TypeName())
+	}
+	count, ok := ugo.ToGoInt(c.Get(1))
+	if !ok {
+		return ugo.Undefined, ugo.NewArgumentTypeError("2nd", "int", c.Get(1).TypeName())
+	}
 	// if n is negative strings.Repeat function panics
 	if count < 0 {
-		return ugo.String("")
+		return ugo.String(""), nil
 	}
-	return ugo.String(strings.Repeat(s, count))
+	if len(s) > 0 && count > maxRepeatSize/len(s) {
+		return ugo.Undefined, ugo.ErrType.NewError("repeat count is too large")
+	}
+	return ugo.String(strings.Repeat(s, count)), nil
 }
 
 func replaceFunc(c ugo.Call) (ugo.Object, error) {
